@@ -283,7 +283,7 @@ def run(ctx):
     for obs, npairs in core.parallel_map(task, list(range(-1, MAX + 1))):
         ctx.obligations.extend(obs)
         total += npairs
-    ctx.floor("(cell resolution, target) pairs analysed", total, 800)
+    ctx.floors.append(("(cell resolution, target) pairs analysed", total, 800))
     ctx.analysed.update({"pairs": total, "shape": {"accumulator": sh.acc, "side_lists": sh.side, "result": sh.result, "offset": sh.offset},
                          "functions": [Q, "a5.core.cell_info.get_num_children", "a5.core.serialization.cell_to_children",
                                        "a5.core.serialization.get_resolution"]})
@@ -306,6 +306,10 @@ def check_pair(rec, su: Setup, sh: Shape, r: int, t: int, cell: Lin):
                     f"path [{describe_path(falls[0][3])}] falls through instead of raising")
         else:
             rec.ok("C10.1", f"{tag}: raises in the sizing pass", w1, "every path raises before the result list exists")
+        return
+    if raises and su.ids.get(t) is not None and any(
+            type(at).__name__ == "Opaque" for x in raises for c, tt, _ in x[3].path for at in (c.left - c.right).atoms()):
+        rec.unk("C10.1", f"{tag}: the sizing pass may raise", w1, "on a path whose condition is not modelled")
         return
     if raises and su.ids.get(t) is not None:
         rec.bad("C10.1", f"{tag}: the sizing pass raises for a valid request", w1,
